@@ -91,13 +91,16 @@ def failM (e : Err) : M α := fun s => (.error e, s)
 def getSt : M St := fun s => (.ok s, s)
 def setSt (s : St) : M Unit := fun _ => (.ok (), s)
 
-/-- `util.name.get_variant_name` (the search is bounded by the number of names to avoid). -/
-def variantAux (nm : String) (prevs : List String) : Nat → Nat → String
-  | 0, i => nm ++ toString i
-  | fuel + 1, i => if prevs.contains (nm ++ toString i) then variantAux nm prevs fuel (i + 1) else nm ++ toString i
+/-- `util.name.get_variant_name`: nm, else the first nm ++ str(i), i = 1, 2, …, not in prevs.
+The search is bounded by `prevs.length + 1` candidates; `none` if the bound is reached (Python
+loops until it finds one; by the pigeonhole principle it does so within the bound, which is not
+needed for soundness: a run of the model that reaches the bound fails). -/
+def variantAux (nm : String) (prevs : List String) : Nat → Nat → Option String
+  | 0, _ => none
+  | fuel + 1, i => if prevs.contains (nm ++ toString i) then variantAux nm prevs fuel (i + 1) else some (nm ++ toString i)
 
-def variantName (nm : String) (prevs : List String) : String :=
-  if prevs.contains nm then variantAux nm prevs prevs.length 1 else nm
+def variantName (nm : String) (prevs : List String) : Option String :=
+  if prevs.contains nm then variantAux nm prevs (prevs.length + 1) 1 else some nm
 
 def R.toZ : R → Z
   | .pi n => .ilit n | .pb b => .bconst b | .z e => e
@@ -187,8 +190,9 @@ def noteNat (x : String) (T : Ty) (e : Z) : M Unit := fun s =>
 
 /-- fresh name for a binder / an of_nat constant, appended to `var_names` -/
 def freshName (nm : String) : M String := fun s =>
-  let n := variantName nm s.varNames
-  (.ok n, { s with varNames := s.varNames ++ [n] })
+  match variantName nm s.varNames with
+  | some n => (.ok n, { s with varNames := s.varNames ++ [n] })
+  | none => (.error .crash, s)
 
 /-- `of_nat x` for a free variable x (not bound by a quantifier of the term): a separate
 non-negative real constant, remembered in `to_real`; x itself is not visited. -/
@@ -196,10 +200,12 @@ def ofNatVarM (x : String) : M R := fun s =>
   match lookup x s.toReal with
   | some rx => (.ok (.z (.const rx .real)), s)
   | none =>
-    let nm := variantName ("r" ++ x) s.varNames
-    (.ok (.z (.const nm .real)),
-     { varNames := s.varNames ++ [nm], toReal := s.toReal ++ [(x, nm)],
-       assms := (s.assms.filter (fun p => p.1 != nm)) ++ [(nm, .ge (.const nm .real) (.rlit 0))] })
+    match variantName ("r" ++ x) s.varNames with
+    | some nm =>
+      (.ok (.z (.const nm .real)),
+       { varNames := s.varNames ++ [nm], toReal := s.toReal ++ [(x, nm)],
+         assms := (s.assms.filter (fun p => p.1 != nm)) ++ [(nm, .ge (.const nm .real) (.rlit 0))] })
+    | none => (.error .crash, s)
 
 /-- The function `rec` inside `convert`; `env` lists (generated name, type) of the enclosing
 binders, innermost first. -/
@@ -597,5 +603,87 @@ def ratNum : Num Rat where
 /-- `Z3Macro.eval` / `Z3Method.apply`: the solver is consulted only when `check_z3` is on. -/
 def macroAccepts (checkZ3 : Bool) (solveResult : Bool) : Bool :=
   if checkZ3 then solveResult else true
+
+end Holpy.C06
+
+namespace Holpy.C06
+
+/-- Every free variable occurrence of the term is declared (with its type) in `vars`: what
+`term.get_vars(As + [C])` establishes in `solve_core`. -/
+def H.scoped (vars : List (String × Ty)) : H → Bool
+  | .var x T => vars.contains (x, T)
+  | .ofNatVar x => vars.contains (x, .nat)
+  | .bv _ | .num .. | .tt | .ff | .eqFun _ | .unsup _ => true
+  | .not a | .neg _ a | .ofNat a | .abs _ a | .app _ _ _ a | .mem a _ _ => a.scoped vars
+  | .all _ _ b | .ex _ _ b => b.scoped vars
+  | .and a b | .or a b | .imp a b | .xor a b | .eq a b | .add a b | .sub _ a b | .mul a b | .div a b
+  | .le a b | .lt a b | .ge a b | .gt a b | .max a b | .min a b => a.scoped vars && b.scoped vars
+  | .ite c a b => c.scoped vars && a.scoped vars && b.scoped vars
+
+/-- names of the (nullary) constants occurring in a Z3 term -/
+def Z.constNames : Z → List String
+  | .const x _ => [x]
+  | .bconst _ | .ilit _ | .rlit _ | .bv .. => []
+  | .not a | .neg a | .toReal a | .app _ _ _ a => a.constNames
+  | .and a b | .or a b | .imp a b | .eq a b | .add a b | .sub a b | .mul a b
+  | .div a b | .le a b | .lt a b | .ge a b | .gt a b => a.constNames ++ b.constNames
+  | .ite c a b => c.constNames ++ a.constNames ++ b.constNames
+  | .all _ _ b | .ex _ _ b => b.constNames
+
+/-- No capture when z3py abstracts the named constant of a binder (`z3.ForAll(Const(nm), body)`
+binds every occurrence of the constant nm in body): the name of every quantifier differs from the
+names of the enclosing quantifiers (`outer`) and from every constant occurring in its body (the
+bound occurrences themselves are de Bruijn indices in this model). -/
+def Z.noCapture : List String → Z → Bool
+  | _, .bconst _ | _, .ilit _ | _, .rlit _ | _, .const .. | _, .bv .. => true
+  | o, .not a | o, .neg a | o, .toReal a | o, .app _ _ _ a => a.noCapture o
+  | o, .and a b | o, .or a b | o, .imp a b | o, .eq a b | o, .add a b | o, .sub a b | o, .mul a b
+  | o, .div a b | o, .le a b | o, .lt a b | o, .ge a b | o, .gt a b => a.noCapture o && b.noCapture o
+  | o, .ite c a b => c.noCapture o && a.noCapture o && b.noCapture o
+  | o, .all x _ b | o, .ex x _ b => !(o.contains x) && !(b.constNames.contains x) && b.noCapture (x :: o)
+
+/-- The abstract solver: `check zs = true` means it answered `unsat` for the assertions zs. -/
+structure Solver where
+  check : List Z → Bool
+
+/-- `z3wrapper.solve`: True iff `solve_core` succeeds and the solver says `unsat`. -/
+def solve (S : Solver) (vars : List (String × Ty)) (As : List H) (C : H) : Bool :=
+  match solveCore vars As C with
+  | .ok zs => S.check zs
+  | .error _ => false
+
+end Holpy.C06
+
+namespace Holpy.C06
+
+/-- Goals of the SymPy step, as far as the side conditions of `sympywrapper` look at them.
+`num` is any term for which `is_number()` holds (not traversed; the literal p / 0 is the number 0). -/
+inductive SE where
+  | var (x : String) | num (q : Rat)
+  | add (a b : SE) | sub (a b : SE) | mul (a b : SE) | div (a b : SE) | neg (a : SE) | abs (a : SE)
+  | npow (a : SE) (n : Nat) | rpow (a b : SE)
+  | sqrt (a : SE) | log (a : SE) | exp (a : SE)
+  | sin (a : SE) | cos (a : SE) | tan (a : SE) | cot (a : SE) | sec (a : SE) | csc (a : SE)
+  | rel (op : Cmp) (a b : SE) | eqn (a b : SE) | not (a : SE)
+  deriving Repr, Inhabited
+
+inductive Guard where
+  | nonzero (e : SE)    -- get_divisors / get_pole_divisors: must not vanish
+  | nonneg (e : SE)     -- get_domain_conds 'nonneg'
+  | pos (e : SE)        -- get_domain_conds 'pos'
+  deriving Repr, Inhabited
+
+/-- The side conditions `solve_goal` / `solve_with_interval` check before asking SymPy (fixes
+C06-7, C06-11): `get_divisors`, `get_pole_divisors`, `get_domain_conds` in one traversal. -/
+def sympyGuards : SE → List Guard
+  | .var _ | .num _ => []
+  | .add a b | .sub a b | .mul a b | .rel _ a b | .eqn a b => sympyGuards a ++ sympyGuards b
+  | .div a b => .nonzero b :: (sympyGuards a ++ sympyGuards b)
+  | .rpow a b => .pos a :: (sympyGuards a ++ sympyGuards b)
+  | .neg a | .abs a | .npow a _ | .exp a | .sin a | .cos a | .not a => sympyGuards a
+  | .sqrt a => .nonneg a :: sympyGuards a
+  | .log a => .pos a :: sympyGuards a
+  | .tan a | .sec a => .nonzero (.cos a) :: sympyGuards a
+  | .cot a | .csc a => .nonzero (.sin a) :: sympyGuards a
 
 end Holpy.C06
